@@ -16,7 +16,7 @@ BINW = os.path.join(HWIN, "target", "release", "commwin_replay")
 
 MC_CFGS = {
     ("C01", "quick"): ["MC_CommWin_a.cfg"],
-    ("C01", "thorough"): ["MC_CommWin_a.cfg", "MC_CommWin_b.cfg"],
+    ("C01", "thorough"): ["MC_CommWin_a.cfg", "MC_CommWin_b.cfg", "MC_CommWin_live.cfg"],
     ("C02", "quick"): ["MC_CommWin_a.cfg"],
     ("C02", "thorough"): ["MC_CommWin_a.cfg", "MC_CommWin_b.cfg"],
     ("C03", "quick"): ["MC_CommWin_limtime.cfg"],
